@@ -458,12 +458,19 @@ func c01Exec(c C01Case) *decimal.Decimal {
 }
 
 // c01ExecOps also returns the operand variables (nil when the operation has none / one).
+// c01Before holds the operand snapshots taken by the last c01ExecOps call (single-threaded use only).
+var c01Before [2]h.Snap
+
 func c01ExecOps(c C01Case) (z, xo, yo *decimal.Decimal) {
 	x := c.X.Build()
 	var y *decimal.Decimal
 	switch c.Op {
 	case "add", "sub", "mul", "quo":
 		y = c.Y.Build()
+	}
+	c01Before[0] = h.Read(x)
+	if y != nil {
+		c01Before[1] = h.Read(y)
 	}
 	z = mkRecv(c.P, c.M)
 	switch c.Alias {
@@ -503,13 +510,13 @@ func checkC01(c C01Case, o *h.Obs) *h.Fail {
 	got := h.Read(zd)
 	// operands that are not the receiver keep value and attributes (also for operands of a thousand words)
 	if xd != nil && xd != zd {
-		if xs := h.Read(xd); xs.Malformed != "" || !xs.Val().Equal(c.X.Val()) || xs.Prec != c.X.P || xs.Mode != c.X.M {
-			return h.Failf("operand-modified", "%s changed its first operand: %v is now %v", c.Op, c.X, xs)
+		if xs := h.Read(xd); !xs.SameAll(c01Before[0]) {
+			return h.Failf("operand-modified", "%s changed its first operand: %v is now %v", c.Op, c01Before[0], xs)
 		}
 	}
 	if yd != nil && yd != zd {
-		if ys := h.Read(yd); ys.Malformed != "" || !ys.Val().Equal(c.Y.Val()) || ys.Prec != c.Y.P || ys.Mode != c.Y.M {
-			return h.Failf("operand-modified", "%s changed its second operand: %v is now %v", c.Op, c.Y, ys)
+		if ys := h.Read(yd); !ys.SameAll(c01Before[1]) {
+			return h.Failf("operand-modified", "%s changed its second operand: %v is now %v", c.Op, c01Before[1], ys)
 		}
 	}
 	cls := model.Classify(exact, uint64(c.P))
